@@ -1,8 +1,7 @@
 (* C14 — the HasStates layer of frappy/states.py on top of the state machine model: status derivation
    (state_transition, get_status), start_machine / stop_machine / final_status / on_cleanup, cycle_machine.
-   The status is a function of the operations and of the events of the core machine; this file computes it by
-   folding over the events of each cycle.  No interference inside a cycle is modelled here (operations are issued
-   between cycles; the world's w_env is unused).  Executable definitions only. *)
+   No interference inside a cycle is modelled here (operations are issued between cycles; the world's w_env is
+   meant to be the constant None).  Executable definitions only. *)
 From Coq Require Import List Arith ZArith Bool.
 Import ListNotations.
 Require Import FV.Base.Util FV.C14.Model.
@@ -79,29 +78,101 @@ Definition transition (h_st : status) (h_idle : option status) (pend : pend_kind
     end in
   match s1 with Some s => s | None => h_st end.
 
-(* the automaton over the events of one cycle; pend is the task pending at the start, cleared when it is taken *)
-Record acc := { a_st : status; a_idle : option status; a_pend : pend_kind; a_log : list status }.
+(* ---- the cycle of the state machine with the layer's callbacks: transition = state_transition, cleanup = on_cleanup,
+   final_status called by state functions.  The control flow repeats Model.turn/inner/round/outer literally; the
+   projection lemma core_h_cycle (HasStatesLemmas.v) shows that the core component is exactly Model.cycle. *)
+Definition h_new_state (W : world) (h : hs) (f : option sid) : hs :=
+  let s' := transition (st h) (idle h) (next_task (core h)) f in
+  {| core := new_state W (core h) f; st := s'; idle := idle h; log := s' :: log h |}.   (* all_status_changes: read_status *)
 
-Definition on_event (a : acc) (e : event) : acc :=
-  match e with
-  | EvTrans _ f =>
-      let s := transition (a_st a) (a_idle a) (a_pend a) f in
-      {| a_st := s; a_idle := a_idle a; a_pend := a_pend a; a_log := s :: a_log a |}   (* all_status_changes: read_status *)
-  | EvPickup _ _ =>
-      {| a_st := a_st a;
-         a_idle := match a_pend a with
-                   | Some (TStart _ _ _ _) => if reset_idle then Some (c_idle C, TEmpty) else a_idle a
-                   | _ => a_idle a
-                   end;
-         a_pend := None; a_log := a_log a |}
-  | EvFinal k => {| a_st := a_st a; a_idle := Some (k, TFinal k); a_pend := a_pend a; a_log := a_log a |}
-  | EvCleanup _ _ 0 =>                      (* on_cleanup -> on_error -> final_status(ERROR, repr) *)
-      {| a_st := a_st a; a_idle := Some (c_error C, TError); a_pend := a_pend a; a_log := a_log a |}
-  | _ => a
+(* on_cleanup -> on_error -> final_status(ERROR, repr): only when the cleanup function is really called *)
+Definition h_do_cleanup (W : world) (h : hs) (r : reason) : hs * option sid :=
+  let '(c', ret) := do_cleanup W (core h) r in
+  let stored := match cleanup_reason (core h) with Some r' => r' | None => r end in
+  let called := match cleanup (core h) with Some _ => true | None => false end in
+  ({| core := c'; st := st h;
+      idle := if called && Nat.eqb (reason_code stored) 0 then Some (c_error C, TError) else idle h;
+      log := log h |}, ret).
+
+Inductive hdecision := HRet (h : hs) (r : iret) | HGo (h : hs).
+
+Definition h_after_cleanup (W : world) (p : hs * option sid) : hdecision :=
+  match snd p with
+  | None => HRet (fst p) IBreak
+  | Some f => HGo (h_new_state W (fst p) (Some f))
   end.
 
-Definition new_events (before after : sm) : list event :=
-  rev (firstn (length (trace after) - length (trace before)) (trace after)).
+Definition with_core (h : hs) (c : sm) : hs := {| core := c; st := st h; idle := idle h; log := log h |}.
+
+Definition h_turn (W : world) (h : hs) : hdecision :=
+  let h := with_core h (hook W (core h)) in
+  match next_task (core h), cleanup_reason (core h) with
+  | Some t, None => h_after_cleanup W (h_do_cleanup W h (RTask t))
+  | _, _ =>
+      match statefunc (core h) with
+      | None => HRet h IBreak
+      | Some f =>
+          let n := ctr (core h) in
+          let c1 := hook W (emit (core h) (EvCall f (init (core h)))) in
+          match w_s W n with
+          | BRetry => HRet (with_core h (set_init c1 false)) IReturn
+          | BFinish => HRet (with_core h (set_init c1 false)) IBreak
+          | BFinal c =>
+              HRet {| core := set_init (emit c1 (EvFinal c)) false; st := st h; idle := Some (c, TFinal c); log := log h |} IBreak
+          | BNext g => HGo (h_new_state W (with_core h (set_init c1 false)) (Some g))
+          | BNonCallable => h_after_cleanup W (h_do_cleanup W (with_core h (set_init c1 false)) RExc)
+          | BRaise => h_after_cleanup W (h_do_cleanup W (with_core h c1) RExc)
+          end
+      end
+  end.
+
+Fixpoint h_inner (W : world) (k : nat) (h : hs) : hs * iret :=
+  match k with
+  | 0 => (h, IExhausted)
+  | S k' => match h_turn W h with
+            | HRet h' r => (h', r)
+            | HGo h' => h_inner W k' h'
+            end
+  end.
+
+Definition h_pickup (W : world) (h : hs) : hs :=
+  match next_task (core h) with
+  | None => h
+  | Some (TStop _) => with_core h (pickup W (core h))
+  | Some (TStart _ f _ _) =>
+      (* cleanup_reason := None, then _new_state(newstate) with next_task already cleared, then the attributes *)
+      let c1 := emit (set_reason (set_next_task (core h) None) None)
+                     (EvPickup (task_id (match next_task (core h) with Some t => t | None => TStop 0 end))
+                               (match next_task (core h) with Some (TStart _ _ (Some _) _) => true | _ => false end)) in
+      let s' := transition (st h) (idle h) None (Some f) in
+      {| core := pickup W (core h); st := s';
+         idle := if reset_idle then Some (c_idle C, TEmpty) else idle h;
+         log := s' :: log h |}
+  end.
+
+Definition h_round (W : world) (maxloops : nat) (h : hs) : hs * bool :=
+  match statefunc (core h) with
+  | Some _ =>
+      let '(h1, r) := h_inner W maxloops h in
+      match r with
+      | IReturn => (h1, false)
+      | IBreak => (h_pickup W (h_new_state W h1 None), true)
+      | IExhausted =>
+          let '(h2, ret) := h_do_cleanup W h1 RExc in
+          match ret with
+          | Some f => (h_new_state W h2 (Some f), true)
+          | None => (h_pickup W (h_new_state W h2 None), true)
+          end
+      end
+  | None => (h_pickup W h, true)
+  end.
+
+Fixpoint h_outer (W : world) (maxloops : nat) (k : nat) (h : hs) : hs :=
+  match k with
+  | 0 => h
+  | S k' => let '(h', go) := h_round W maxloops h in
+            if go then h_outer W maxloops k' h' else h'
+  end.
 
 Inductive hop :=
 | HStart (tid : nat) (f : sid) (kw : list (nat * Z))   (* start_machine(f, **kw) with the default cleanup on_cleanup *)
@@ -124,10 +195,8 @@ Definition hstep (W : world) (maxloops rounds : nat) (h : hs) (o : hop) : hs :=
         {| core := post (core h) (TStop tid); st := s1; idle := Some (c_idle C, TStopped); log := s1 :: log h |}
       else h
   | HCycle =>
-      let c' := cycle W maxloops rounds (core h) in
-      let a := fold_left on_event (new_events (core h) c')
-                 {| a_st := st h; a_idle := idle h; a_pend := next_task (core h); a_log := log h |} in
-      {| core := c'; st := a_st a; idle := a_idle a; log := a_st a :: a_log a |}          (* read_status at the end *)
+      let h' := h_outer W maxloops rounds h in
+      {| core := core h'; st := st h'; idle := idle h'; log := st h' :: log h' |}          (* read_status at the end *)
   end.
 
 Definition hs0 : hs :=
